@@ -87,16 +87,34 @@ prop(
           "shard) at the moment a chunk of its table is handed to the receiver (the in-memory transport runs the interceptor when the "
           "receiver pulls the chunk; a real sender could hold the chunk back until then; pulling the reveal messages earlier than the "
           "attacker's honest code does is not modelled); then delta is added to one 32-bit word of one row and k*delta (GF(2^32)) to its tag; "
-          "applied + all honest helpers return rows => violation (key not yet known => counted). large table (thorough, one process): "
+          "applied + all honest helpers return rows => violation (key not yet known => counted). row permutation (malicious): row types x "
+          "shards {1,2,3} x row counts {2,3,10,100,300 (+5, 33, 700 thorough)} x (attacker, table) in {(H1,X2), (H2,Y1), (H2,C1), (H3,C2)}: two whole rows "
+          "(content and tag) of one table channel are exchanged in the bytes the receiver pulls, once two rows of one transport chunk and, "
+          "for tables of several chunks, once two rows of different chunks (bytes of the other row taken from a reference run with the same "
+          "world seed and re-checked against the attack run's own traffic); some honest helper must fail; all honest helpers Ok and the "
+          "output multiset changed / inconsistent => violation; all Ok and multiset unchanged => counted as without effect. key-share shift "
+          "(malicious): row types x shards {1,2,3} x row counts 1..6 x attacker/victim in {H1 -> H2 (table X2), H2 -> H3 (table C1)} on a shard "
+          "where the tables the victim digests for an honest verifier (X2; Y1 and C) have at most one row per 32-bit word: the attacker adds d to "
+          "one word of one row when the table is pulled, and when its own RevealMACKey message to the victim is pulled and the share it "
+          "lacks has already been delivered to it (any shard) it adds the solution delta of sum_j delta_j*T'[r][j] = k_j0*d*[r=r0] (GF(2^32)) "
+          "to the key shares in that message; applied + all honest helpers return rows + output altered => violation; an honest helper "
+          "failing => counted as detected. large table (thorough, one process): "
           "BA32 rows on one shard, 1,100,003 rows semi-honest and 2^20+7 rows malicious (both > 2^20), paused-clock executor (quiescence decides "
           "'never finishes'), multiset oracle. distinct = (type, shards, mode, "
-          "assignment, size) / (type, step family, sender, shards) / (type, shards, size, attacker/table, outcome); non-trivial = outcome classified"),
+          "assignment, size) / (type, step family, sender, shards) / (type, shards, size, attacker/table, outcome) / (type, shards, size, "
+          "attacker/table, chunk placement, outcome); non-trivial = outcome classified"),
     assumptions=["only MPC (helper-to-helper) traffic is tampered with", "MAC tag forgery probability 2^-32 per run is ignored",
-                 "the adaptive attacker follows the protocol's own schedule: it alters a message when it is delivered and never asks for a message earlier than the honest code"],
+                 "the adaptive attacker follows the protocol's own schedule: it alters a message when it is delivered and never asks for a message earlier than the honest code",
+                 "a sender knows its whole table before the first row leaves: the row-permutation attacker's table bytes are taken from a reference run with the same world seed (re-checked on the attack run)"],
     shards={"quick": 16, "thorough": 16},
     min_evaluations={"quick": 400, "thorough": 3000},
     must_see=[("multiset_equal", 60), ("fault_abort", 20), ("shuffle_step_families_faulted", 7),
               ("adaptive_attack_runs", 300), ("adaptive_table_chunks_observed", 1000), ("adaptive_classes", 40),
+              ("row_permutation_applied", 200), ("row_permutation_applied/same_chunk", 100), ("row_permutation_applied/different_chunks", 40),
+              ("row_permutation_applied/H1/x2", 40), ("row_permutation_applied/H2/y1", 40), ("row_permutation_applied/H2/c1", 40),
+              ("row_permutation_applied/H3/c2", 40), ("row_permutation_tables", 40),
+              ("key_share_shift_applied", 150), ("key_share_shift_applied/H1/x2", 80), ("key_share_shift_applied/H2/c1", 40),
+              ("key_share_shift_shapes", 20),
               ("large_table_skipped_in_quick_tier", 1, "quick"),
               ("large_table_multiset_equal_sh", 1, "thorough"), ("large_table_multiset_equal_mal", 1, "thorough"),
               ("large_table_rows_checked", 1100003 + (1 << 20) + 7, "thorough")],
@@ -397,7 +415,13 @@ prop(
           "further TLS servers (pre-bound and self-bound) whose network configuration has certificate: None for every subset of the peers "
           "(helper ring of 3, shard network of 2) and probes the protected routes with no certificate / each peer's certificate / a foreign "
           "certificate: only a caller whose certificate is pinned in that configuration is served (record stream filed under its own "
-          "identity), everybody else gets 401 or a failed TLS handshake, the request handler is not invoked and no record stream is created"),
+          "identity), everybody else gets 401 or a failed TLS handshake, the request handler is not invoked and no record stream is created. "
+          "verif_c20_incomplete_tls_config starts servers of both kinds (new_mpc / new_shards, pre-bound and self-bound) from the repository's test "
+          "configuration with disable_https = false and missing or incomplete TLS material (tls: None; inline certificate without key, key "
+          "without certificate, both empty; certificate / key files that do not exist, one or both): either start_on refuses to start "
+          "(incomplete_tls_refused_at_startup) or the server that came up must answer 401, without invoking the request handler or creating a "
+          "record stream, to every caller that is not authenticated by a client certificate - plain HTTP and TLS (no certificate, foreign "
+          "certificate), HTTP/1.1 and HTTP/2, without header and with the identity header of every helper / shard, malformed, other flavour's"),
     assumptions=["routes are declared with the repository's idiom (AXUM_PATH constants or literals in .route(..) inside functions returning "
                  "Router reachable from handlers::mpc_router / shard_router); anything the scanner cannot follow makes the check inconclusive",
                  "report-collector allow-list (GET /echo, GET /metrics, POST /query, POST /query/:query_id/input, GET /query/:query_id, "
@@ -420,7 +444,10 @@ prop(
               # verif_c20_unpinned_peers: (7 + 3 startable configurations) x 2 start modes; 2 x 2 all-unpinned ones refused at startup
               ("unpinned_configs", 20), ("unpinned_configs_refused_at_startup", 4), ("unpinned_configs_answered", 30),
               ("unpinned_refused_401", 100), ("unpinned_refused_at_tls", 100), ("unpinned_pinned_peer_accepted", 100),
-              ("unpinned_stream_under_own_identity", 40), ("unpinned_no_stream_checked", 5), ("unpinned_routes_refused", 6)],
+              ("unpinned_stream_under_own_identity", 40), ("unpinned_no_stream_checked", 5), ("unpinned_routes_refused", 6),
+              # verif_c20_incomplete_tls_config: {mpc, shard} x 7 incomplete TLS configurations x 2 start modes, each either refused at
+              # startup or started and probed
+              ("incomplete_tls_configs", 28), ("incomplete_tls_configs_decided", 28)],
     watchdog_s={"quick": 600, "thorough": 1800},
     pre_run=_routes.pre_run,
 )
@@ -669,7 +696,7 @@ TECHNIQUE = {
     "C02": "runtime fault injection: one sender's chunk altered through the stream interceptor on a replayed deterministic execution; outcome oracle (abort / honest shares determine reference result)",
     "C03": "runtime fault enumeration on recorded and transmitted multiplication bits against a reference three-party multiplication model; real Batch::validate on three helpers",
     "C04": "runtime additive-fault injection on MAC-protected protocols (incl. coordinated cross-lane attack, every malicious opening flavour, adaptive opened-key and rushing deviating-party attacks); binomial allowance for Fp31",
-    "C05": "runtime multiset / share-consistency oracle on sharded shuffles (incl. one table of more than 2^20 rows) plus fault injection on tables and held rows and an adaptive key-aware tag-forging helper",
+    "C05": "runtime multiset / share-consistency oracle on sharded shuffles (incl. one table of more than 2^20 rows) plus fault injection on tables and held rows (bit faults and row permutations), an adaptive key-aware tag-forging helper and a rushing helper that shifts the MAC key share it opens",
     "C06": "runtime equality/inequality checks on three PRSS endpoints plus offline checker over the hook-H5 log of every PRSS draw (no reuse, no collision)",
     "C07": "runtime differential monitoring of every circuit against plaintext reference functions (exhaustive for small widths, 256 lanes per run)",
     "C08": "runtime exhaustive axiom checking, independent big-integer reference, run-time irreducibility/primality certificates of the exported moduli",
@@ -684,7 +711,7 @@ TECHNIQUE = {
     "C17": "runtime differential monitoring against a reference parser over all chunkings (with Pending, empty chunks, upstream errors); Miri",
     "C18": "history enumeration through the production request handlers against an independent reference automaton, run-until-idle under a paused clock",
     "C19": "unique-id histories: multiset/placement oracle, cross-helper and cross-schedule order comparison; fault injection on input and shard streams; shuttle",
-    "C20": "route discovery from source + request matrix over in-process handler and real TLS/plain loopback listeners (pre-bound and self-bound; HTTP/1.1 and HTTP/2 request forms; network configurations with unpinned peers) with a default-deny oracle",
+    "C20": "route discovery from source + request matrix over in-process handler and real TLS/plain loopback listeners (pre-bound and self-bound; HTTP/1.1 and HTTP/2 request forms; network configurations with unpinned peers; server configurations with missing / incomplete TLS material) with a default-deny oracle",
 }
 
 # Thorough tiers whose seeded workloads finish in well under two minutes are repeated under derived seeds
